@@ -38,7 +38,9 @@ use super::config;
 use super::constant::fixed::MAX_LPC_ORDER as MAX_FIXED_LPC_ORDER;
 use super::constant::panic_msg;
 use super::constant::qlpc::MAX_ORDER as MAX_LPC_ORDER;
+use super::constant::MAX_BITS_PER_SAMPLE;
 use super::constant::MAX_BLOCK_SIZE;
+use super::constant::MIN_BITS_PER_SAMPLE;
 use super::constant::MIN_BLOCK_SIZE_FOR_PREDICTION;
 use super::error::verify_range;
 use super::error::verify_true;
@@ -607,12 +609,28 @@ pub fn encode_fixed_size_frame(
         framebuf.filled_size(),
         1..=MAX_BLOCK_SIZE
     )?;
-    framebuf.verify_samples(stream_info.bits_per_sample())?;
     // NOTE: From expected use cases, wrapping `stream_info` is not practical
-    // since it is mutable everywhere. On the other hand, verifying it here is
-    // a bit redundant. Because broken `stream_info` actually harms nothing,
-    // as long as it is consistent with `framebuf` (that is checked in the
-    // previous line), we just leave as it is here.
+    // since it is mutable everywhere (and it can be deserialized), so the
+    // fields used for encoding are checked here: they must be in their ranges
+    // and must describe `framebuf`.
+    verify_range!(
+        "encode_fixed_size_frame (stream_info.sample_rate)",
+        stream_info.sample_rate(),
+        ..=96_000
+    )?;
+    verify_true!(
+        "encode_fixed_size_frame (stream_info.channels)",
+        (1..=8).contains(&stream_info.channels())
+            && stream_info.channels() == framebuf.channels(),
+        "must be within 1..=8 and identical with the channel count of `framebuf`"
+    )?;
+    verify_true!(
+        "encode_fixed_size_frame (stream_info.bits_per_sample)",
+        (MIN_BITS_PER_SAMPLE..=MAX_BITS_PER_SAMPLE).contains(&stream_info.bits_per_sample())
+            && stream_info.bits_per_sample() % 4 == 0,
+        "must be a multiple of 4 within the supported range"
+    )?;
+    framebuf.verify_samples(stream_info.bits_per_sample())?;
 
     // A bit awkward, but this function is implemented by overwriting relevant
     // fields of `Frame` generated by `encode_frame`.
